@@ -39,8 +39,18 @@ def strip(guards):
 def lnotab_summary(T, f, dup_lines):
     F = T.F
     code = code_instance(F, "xdis.codetype.code30", "Code3", "co_lnotab")
+    import ast as _ast
+    args, kw = [code], {"dup_lines": dup_lines}
+    if not any(isinstance(n, (_ast.Yield, _ast.YieldFrom)) for n in _ast.walk(f.node)):
+        # a bound finder may be a thin wrapper that returns the generator of another function with extra constant arguments
+        sp0 = Spec(F)
+        out0 = sp0.run(f, args, kw)
+        gens = [e for e in sp0.effects if e.kind == "gen"]
+        rets = [l.value for g_, l in leaves(out0) if isinstance(l, Ret)]
+        if len(gens) == 1 and len(rets) == 1 and isinstance(rets[0], Sym) and rets[0].kind == "gen" and rets[0].info.get("func") is not None:
+            f, args, kw = rets[0].info["func"], list(rets[0].info["args"]), dict(rets[0].info["kw"])
     sp = Spec(F)
-    out = sp.run(f, [code], {"dup_lines": dup_lines})
+    out = sp.run(f, args, kw)
     ls = body_loop(sp, lambda l: isinstance(l.cond, Op) and "zip" in show(l.cond))
     res = {"spec": sp, "loop": ls, "out": out}
     if ls is None:
@@ -80,40 +90,10 @@ def lnotab_summary(T, f, dup_lines):
     return res
 
 
-def run(rep, tier):
-    rep.explanation = ("one-iteration summaries (sparse conditional constant propagation, table bytes symbolic) of the lnotab decoder, Code310.co_lines and the "
-                       "co_lines()-based findlinestarts variants: signedness, emission order, stride, yield guards compared with dis.findlinestarts of each version; "
-                       "def-use of the dup_lines argument from Bytecode")
-    rep.rule("R1", "the lnotab line delta is unsigned for bytecode before 3.6 (magic 3361) and sign-extended (>= 0x80 -> -0x100) from 3.6")
-    rep.rule("R2", "lnotab automaton: pairs (table[0::2], table[1::2]); on a non-zero address increment emit (address, line) of *before* the increment iff the "
-                   "line changed, then advance the address; apply the line delta afterwards; final (address, line) emitted iff the line changed")
-    rep.rule("R3", "3.10 co_lines(): '=Bb' (unsigned length, signed delta) pairs; -128 means no line and the delta is not applied; empty ranges are skipped; start = previous end")
-    rep.rule("R5", "findlinestarts over co_lines(): yields (start, line) when the line changes; None lines skipped for 3.10-3.12, yielded for 3.13")
-    rep.rule("R6", "every opcode table binds a findlinestarts of the kind its version's line table needs")
-    rep.rule("R7", "with the dup_lines value Bytecode passes by default the yield guard is the reference guard (line != lastline)")
-    T = tables()
+
+def lnotab_rules(rep, T, f, versions, universe):
+    """R1/R2 for one bound lnotab finder and the versions whose tables bind it"""
     F = T.F
-    universe = sorted(set(tuple(m.ns["version_tuple"][:2]) for m in T.reachable.values()))
-    # ---------------------------------------------------------------- R6 bound functions
-    bound = {}
-    for name, m in sorted(T.reachable.items()):
-        f = m.ns.get("findlinestarts")
-        v = tuple(m.ns["version_tuple"][:2])
-        q = f.qualname if isinstance(f, FuncRef) else repr(f)
-        bound.setdefault(q, []).append(v)
-        kind = "set_lineno" if v < (1, 5) else ("lnotab" if v < (3, 10) else "co_lines")
-        bodytxt = ""
-        if isinstance(f, FuncRef):
-            import ast as _ast
-            bodytxt = _ast.unparse(f.node)
-        uses = {"set_lineno": "SET_LINENO" in bodytxt, "lnotab": "co_lnotab" in bodytxt, "co_lines": "co_lines" in bodytxt}
-        rep.ob("R6", name, "findlinestarts-kind", isinstance(f, FuncRef) and uses[kind], expected=kind, derived=q,
-               msg="table %s (version %d.%d) binds %s, which does not read a %s line table" % (name, v[0], v[1], q, kind))
-    rep.floor("tables with a bound findlinestarts", sum(len(x) for x in bound.values()), 39)
-    # ---------------------------------------------------------------- R1/R2 lnotab decoder
-    f = F.modules["xdis.cross_dis"].ns.get("findlinestarts")
-    if not isinstance(f, FuncRef):
-        raise AnalysisError("anchor vanished: xdis.cross_dis.findlinestarts")
     rep.analysed(f.qualname)
     FN = f.qualname
     r = lnotab_summary(T, f, False)
@@ -150,11 +130,14 @@ def run(rep, tier):
                     applied += 1
             rep.ob("R2", FN, "delta-applied-on-every-pair", applied == len(r["falls"]) and applied >= 2, expected="both paths", derived=applied)
             # R1 per version group
-            pre = [v for v in universe if (1, 5) <= v < (3, 6)]
-            post = [v for v in universe if (3, 6) <= v < (3, 10)]
-            rep.ob("R1", FN, "line-delta-signedness@%s" % vlabel(pre, universe), line[2] == "unsigned", expected="unsigned (0..255)", derived=line[2],
-                   msg="line deltas of bytecode before 3.6 are unsigned; the decoder has no version input and always sign-extends (a delta of 213 becomes -43)")
-            rep.ob("R1", FN, "line-delta-signedness@%s" % vlabel(post, universe), line[2] == "signed", expected="signed (>= 0x80 -> -0x100)", derived=line[2])
+            pre = [v for v in versions if v < (3, 6)]
+            post = [v for v in versions if v >= (3, 6)]
+            if pre:
+                rep.ob("R1", FN, "line-delta-signedness@%s" % vlabel(pre, universe), line[2] == "unsigned", expected="unsigned (0..255)", derived=line[2],
+                       msg="line deltas of bytecode before 3.6 are unsigned; the finder bound by these tables sign-extends (a delta of 213 becomes -43)")
+            if post:
+                rep.ob("R1", FN, "line-delta-signedness@%s" % vlabel(post, universe), line[2] == "signed", expected="signed (>= 0x80 -> -0x100)", derived=line[2],
+                       msg="line deltas of 3.6-3.9 bytecode are signed bytes; the finder bound by these tables reads them unsigned")
         # final yield
         sp = r["spec"]
         finals = [e for e in sp.effects if e.kind == "yield" and any(isinstance(g, Op) and g.op == "not" and "loop-exit" in show(g) for g in e.guards)]
@@ -163,6 +146,50 @@ def run(rep, tier):
         # empty table
         empt = [e for e in sp.effects if e.kind == "yield" and any("Eq(len(table), 0)" == show(g) for g in e.guards)]
         rep.ob("R2", FN, "empty-table", len(empt) == 1 and show(empt[0].args[0]) == "(0, first)", expected="(0, co_firstlineno)", derived=[show(x.args[0]) for x in empt])
+
+def run(rep, tier):
+    rep.explanation = ("one-iteration summaries (sparse conditional constant propagation, table bytes symbolic) of the lnotab decoder, Code310.co_lines and the "
+                       "co_lines()-based findlinestarts variants: signedness, emission order, stride, yield guards compared with dis.findlinestarts of each version; "
+                       "def-use of the dup_lines argument from Bytecode")
+    rep.rule("R1", "the lnotab line delta is unsigned for bytecode before 3.6 (magic 3361) and sign-extended (>= 0x80 -> -0x100) from 3.6")
+    rep.rule("R2", "lnotab automaton: pairs (table[0::2], table[1::2]); on a non-zero address increment emit (address, line) of *before* the increment iff the "
+                   "line changed, then advance the address; apply the line delta afterwards; final (address, line) emitted iff the line changed")
+    rep.rule("R3", "3.10 co_lines(): '=Bb' (unsigned length, signed delta) pairs; -128 means no line and the delta is not applied; empty ranges are skipped; start = previous end")
+    rep.rule("R5", "findlinestarts over co_lines(): yields (start, line) when the line changes; None lines skipped for 3.10-3.12, yielded for 3.13")
+    rep.rule("R6", "every opcode table binds a findlinestarts of the kind its version's line table needs")
+    rep.rule("R7", "with the dup_lines value Bytecode passes by default the yield guard is the reference guard (line != lastline)")
+    T = tables()
+    F = T.F
+    universe = sorted(set(tuple(m.ns["version_tuple"][:2]) for m in T.reachable.values()))
+    # ---------------------------------------------------------------- R6 bound functions
+    bound = {}
+    for name, m in sorted(T.reachable.items()):
+        f = m.ns.get("findlinestarts")
+        v = tuple(m.ns["version_tuple"][:2])
+        q = f.qualname if isinstance(f, FuncRef) else repr(f)
+        bound.setdefault(q, []).append(v)
+        kind = "set_lineno" if v < (1, 5) else ("lnotab" if v < (3, 10) else "co_lines")
+        bodytxt = ""
+        if isinstance(f, FuncRef):
+            import ast as _ast
+            bodytxt = _ast.unparse(f.node)
+        uses = {"set_lineno": "SET_LINENO" in bodytxt, "lnotab": "co_lnotab" in bodytxt, "co_lines": "co_lines" in bodytxt}
+        rep.ob("R6", name, "findlinestarts-kind", isinstance(f, FuncRef) and uses[kind], expected=kind, derived=q,
+               msg="table %s (version %d.%d) binds %s, which does not read a %s line table" % (name, v[0], v[1], q, kind))
+    rep.floor("tables with a bound findlinestarts", sum(len(x) for x in bound.values()), 39)
+    # ---------------------------------------------------------------- R1/R2 lnotab decoder: every finder bound by a 1.5-3.9 table
+    lnotab_finders = {}
+    for name, m in sorted(T.reachable.items()):
+        v = tuple(m.ns["version_tuple"][:2])
+        fb = m.ns.get("findlinestarts")
+        if (1, 5) <= v < (3, 10) and isinstance(fb, FuncRef):
+            lnotab_finders.setdefault(fb.qualname, [fb, []])[1].append(v)
+    if not lnotab_finders:
+        raise AnalysisError("no opcode table of 1.5-3.9 binds a findlinestarts function")
+    f = None
+    for fq_, (fb, vs_) in sorted(lnotab_finders.items()):
+        f = fb if (f is None or any(v >= (3, 6) for v in vs_)) else f
+        lnotab_rules(rep, T, fb, sorted(set(vs_)), universe)
     # ---------------------------------------------------------------- R7 dup_lines default of Bytecode
     B = F.modules["xdis.bytecode"].ns.get("Bytecode")
     init = B.lookup("__init__") if isinstance(B, ClassRef) else None
